@@ -4,8 +4,6 @@ package main
 
 type C05Job struct{}
 type C10Job struct{}
-type C19Job struct{}
 
 func runC05(*C05Job) error { return nil }
 func runC10(*C10Job) error { return nil }
-func runC19(*C19Job) error { return nil }
